@@ -1,6 +1,8 @@
 package rules
 
 import (
+	"fmt"
+	"go/token"
 	"strings"
 
 	"golang.org/x/tools/go/ssa"
@@ -341,6 +343,35 @@ func runC13(c *an.Ctx) {
 					}
 				}
 				c.Check(okLast, "C13.d", "all-failed-error", "when every trusted peer failed, the error of a failed attempt is returned (every failing iteration records a non-nil error)", perform, r, "", nil)
+				// … and that return is reached only when the loop has run out of peers: the collecting
+				// loop is left early only by returns of their own, and it runs at least once
+				hdr := ph.Block()
+				inLoop := map[*ssa.BasicBlock]bool{}
+				for _, b := range perform.Blocks {
+					if ff.Dominates(hdr, b) && blockReaches(b, hdr) {
+						inLoop[b] = true
+					}
+				}
+				early := ""
+				for b := range inLoop {
+					if b == hdr {
+						continue
+					}
+					for _, s := range b.Succs {
+						if !inLoop[s] && (s == r.Block() || blockReaches(s, r.Block())) {
+							early = fmt.Sprintf("block %d leaves the loop towards this return", b.Index)
+						}
+					}
+				}
+				atLeastOnce := false
+				if iff, isIf := hdr.Instrs[len(hdr.Instrs)-1].(*ssa.If); isIf {
+					if cmp, isCmp := iff.Cond.(*ssa.BinOp); isCmp && cmp.Op == token.LSS {
+						ln := t.Of(cmp.Y)
+						atLeastOnce = strings.HasPrefix(ln, "len(") && (ff.At(hdr).Has(an.NE("0", ln)) || ff.At(hdr).Has(an.NE(ln, "0")) || ff.At(hdr).Has(an.LT("0", ln)))
+					}
+				}
+				c.Check(early == "" && atLeastOnce, "C13.d", "all-failed-only-after-every-peer", "the error collected from failed attempts is returned only after every trusted peer has answered: the loop is left early only through returns of their own and runs at least once, so that error is never nil", perform, r,
+					strings.TrimSpace(early+map[bool]string{true: "", false: " the loop is not proven to run at least once"}[atLeastOnce]), nil)
 			}
 		}
 	}
